@@ -1,8 +1,8 @@
 CONSTANTS Eps = {"e1", "e2"}  MaxLen = ${MaxLen}
 CONSTANTS Listings <- ListingsQuick  BadLists <- BadQuick  FailKinds <- FailQuick
-CONSTANTS FilterChoices <- FiltersQuick  Probe <- ProbeAll
+CONSTANTS FilterChoices <- FiltersQuick  Probe <- ProbeAll  FailBodies <- BodiesOne  WithConcurrency = ${Conc}
 SPECIFICATION Spec
 VIEW View
 INVARIANTS TypeOK Inv_C10_base Inv_C10_unified Inv_C10_nostale Inv_C10_count OnlyFiltered
-PROPERTIES RejectedKeeps
+PROPERTIES RejectedKeeps OthersKeep
 CHECK_DEADLOCK FALSE
